@@ -80,6 +80,9 @@ func c13MapWorkloads() []*model.Content {
 		model.Fixed(h, model.Chn(&ref.Channel{ID: 4, Topic: "a", Metadata: kvN(1)}), model.Chn(&ref.Channel{ID: 3, Topic: "b"}), model.Chn(&ref.Channel{ID: 2, Topic: "c"}), model.Chn(&ref.Channel{ID: 1, Topic: "d"}),
 			model.Msg(1, 1, 3, 0), model.Msg(2, 1, 3, 0), model.Msg(3, 1, 3, 0), model.Msg(4, 1, 3, 0), model.Met(&ref.Metadata{Name: "m", Metadata: kvN(3)})),
 		model.Fixed(h, many...),
+		// keys that a sloppy comparator would tie: equal ignoring case, ignoring trailing blanks, prefixes of one another
+		model.Fixed(h, model.Chn(&ref.Channel{ID: 1, Topic: "a", Metadata: []ref.KV{{K: "a", V: "1"}, {K: "A", V: "2"}, {K: "a ", V: "3"}, {K: "ab", V: "4"}}}), model.Msg(1, 1, 3, 0),
+			model.Met(&ref.Metadata{Name: "m", Metadata: []ref.KV{{K: "key", V: "x"}, {K: "KEY", V: "y"}, {K: "Key", V: "z"}}})),
 	}
 }
 
